@@ -45,7 +45,9 @@
     compact_list( nCurAge )         loop 1 over pNext from m_pHead->pNext:  active and nAge + mask < nCurAge:
                                       CAS-unlink, nState.store( inactive );   removed: CAS-unlink (failure: restart)
                                     loop 2 over pNextAllocated from m_pAllocatedHead->pNextAllocated:
-                                      removed: CAS-unlink, free_publication_record( p )
+                                      removed && !is_published( p ): CAS-unlink, free_publication_record( p )
+                                    is_published( pRec ): for ( p = m_pHead->pNext.load(); p; p = p->pNext.load())
+                                                            if ( p == pRec ) return true;
                                     (a failed compare_exchange_strong writes the observed value into `p`)
     tls_cleanup( pRec )             pRec->nState.store( removed )              -- thread exit
     release_record( pRec )          pRec->nRequest.store( req_EmptyRecord )
@@ -101,6 +103,10 @@ Section Kernel.
   Variable P : Type.                  (* loop-local state of fc_process *)
   Variable pinit : P.
   Variable pvisit : P -> C -> nat -> nat -> nat -> Z -> P * C * list (nat * Rs).
+  (** [chk = true]: the current tree (commit 5412e9d: loop 2 of compact_list frees a removed record only when
+      is_published( p ) is false); [chk = false]: the code before that commit (kept for the refutation witness
+      and the regression case corpus/C23/uaf_exit_between_compact_loops.json) *)
+  Variable chk : bool.
 
   (** pointers are encoded as naturals: 0 = nullptr, S r = record r *)
   Record rec := mkRec {
@@ -330,6 +336,17 @@ Section Kernel.
     | S n' => obind (fc_process fuel) (fun _ => process_passes fuel n')
     end.
 
+  (** is_published( pRec ): for ( p = m_pHead->pNext.load(); p; p = p->pNext.load()) if ( p == pRec ) return true; *)
+  Fixpoint is_published (fuel r p : nat) : prog (option bool) :=
+    match fuel with
+    | O => fail
+    | S fu =>
+        match p with
+        | O => ret false
+        | S q => if Nat.eqb q r then ret true else Act (a_ld q FNext) (fun n => is_published fu r (vn n))
+        end
+    end.
+
   (** compact_list: loop 2 (allocated list); [pp] = pPrev (a record), [p] = current pointer *)
   Fixpoint compact2 (fuel pp p : nat) : prog (option unit) :=
     match fuel with
@@ -340,13 +357,16 @@ Section Kernel.
         | S r =>
             Act (a_ld r FState) (fun s =>
             if Nat.eqb (vn s) st_removed then
+              obind (if chk then Act (a_ld head FNext) (fun h => is_published fuel r (vn h)) else ret false) (fun pub =>
+              if pub then Act (a_ld r FNextA) (fun n => compact2 fu r (vn n))
+              else
               Act (a_ld r FNextA) (fun nx =>
               Act (a_cas_free pp (S r) (vn nx) r) (fun v =>
               if Nat.eqb (vn v) (S r) then compact2 fu pp (vn nx)
               else match vn v with                      (* failed CAS wrote the observed value into p *)
                    | O => fail
                    | S r' => Act (a_ld r' FNextA) (fun n => compact2 fu r' (vn n))
-                   end))
+                   end)))
             else Act (a_ld r FNextA) (fun n => compact2 fu r (vn n)))
         end
     end.
@@ -520,13 +540,14 @@ Fixpoint decode_cops (os : list (list Z)) : list cop :=
   | o :: r => match decode_cop o with Some x => x :: decode_cops r | None => decode_cops r end
   end.
 
-(** cfg = [compact factor; combine pass count; loop fuel] *)
+(** cfg = [compact factor; combine pass count; loop fuel; 0 = compact_list without the is_published test] *)
 Definition run_case (cfg : list Z) (ths : list (list (list Z))) (sched : list nat) (fuel : nat)
   : list (nat * ev) * bool :=
   let cf := Z.to_nat (nth 0 cfg 1%Z) in
   let pc := Z.to_nat (nth 1 cfg 1%Z) in
   let lfuel := Z.to_nat (nth 2 cfg 400%Z) in
+  let chk := negb (Z.eqb (nth 3 cfg 1%Z) 0) in
   let r := Conc.run fuel 0 sched
-             (init_cfg 0 cnt_enc cnt_apply (None : cnt_P) cnt_visit lfuel (compact_mask cf) pc
+             (init_cfg 0 cnt_enc cnt_apply (None : cnt_P) cnt_visit chk lfuel (compact_mask cf) pc
                        (fun _ => 0) (map decode_cops ths)) in
   (Conc.trace (fst r), snd r).
